@@ -329,13 +329,15 @@ LfnListingOK(ents, slots, buf) ==
   LET li == LiveIdx(slots) IN
   Len(ents) = Len(li) =>
   \A i \in 1..Len(ents) :
-     ents[i].has =>
-       LET run == LfnFor(slots, li[i]) IN
-       (run.ok \/ run.mixed) /\ (run.ok => ents[i].lfn = BufferText(run.frags, buf))
+     LET run == LfnFor(slots, li[i]) IN
+     /\ ents[i].has => (run.ok \/ run.mixed) /\ (run.ok => ents[i].lfn = BufferText(run.frags, buf))
+     \* ... and such a run does give the entry its long name (the other half: otherwise reporting none at all would do)
+     /\ (run.ok /\ Len(run.frags) <= 20) => ents[i].has      \* (a name has at most 255 characters: 20 fragments)
 
 LfnFirstBad(ents, slots, buf) ==
   LET li == LiveIdx(slots)
-      bad == {i \in 1..Len(ents) : ents[i].has /\ LET run == LfnFor(slots, li[i]) IN ~((run.ok \/ run.mixed) /\ (run.ok => ents[i].lfn = BufferText(run.frags, buf)))}
+      bad == {i \in 1..Len(ents) : LET run == LfnFor(slots, li[i]) IN
+                  (ents[i].has /\ ~((run.ok \/ run.mixed) /\ (run.ok => ents[i].lfn = BufferText(run.frags, buf)))) \/ (run.ok /\ Len(run.frags) <= 20 /\ ~ents[i].has)}
       i == CHOOSE x \in bad : \A y \in bad : x <= y
   IN <<i, ents[i].n, ents[i].lfn, LfnFor(slots, li[i])>>
 
@@ -485,7 +487,7 @@ TRet ==
                      \cup (IF ok /\ ~ListingMatches(r.v.ents, Listing(disk[v], RecOf(odirs, a.d).id))
                            THEN {<<"C06", "Listing", "iteration differs from the live entries in slot order">>} ELSE {})
                      \cup (IF ok /\ op = "iterate_lfn" /\ ~LfnListingOK(r.v.ents, DirSlots(disk[v], RecOf(odirs, a.d).id), a.buf)
-                           THEN {<<"C17", "LfnListing", "a long name was reported without a complete, ordered, checksum-matching run in front of the entry (or with another text): entry " \o ToString(LfnFirstBad(r.v.ents, DirSlots(disk[v], RecOf(odirs, a.d).id), a.buf))>>} ELSE {})
+                           THEN {<<"C17", "LfnListing", "a long name was reported without a complete, ordered, checksum-matching run in front of the entry (or with another text), or such a run was not reported: entry " \o ToString(LfnFirstBad(r.v.ents, DirSlots(disk[v], RecOf(odirs, a.d).id), a.buf))>>} ELSE {})
                      \cup (IF ok /\ \E i \in 1..Len(r.v.probe) : r.v.probe[i].e # "LockError"
                            THEN {<<"C08", "Reentrant", "a call from inside the callback did not fail with LockError">>} ELSE {})
                      \cup (IF disk # pre THEN {<<"C08", "Refused", "iteration wrote">>} ELSE {}))
